@@ -97,7 +97,9 @@ let run_impl dir ~interval ~nf ~rf (ops : xop list) : child_end =
        | XSetFile l -> write_setfile l ~absolute:(step mod 2 = 0)
        | XCreate (n, t) ->
          let p = Filename.concat dir (name_of n) in
-         if t >= 0 then write_table p t else (let oc = open_out p in output_string oc "this is not an mtbl file\n"; close_out oc)
+         (* a path is always re-created (new inode), never rewritten in place: a loaded table stays mapped, and table
+            files are immutable - truncating one under a reader is outside the property *)
+         if t >= 0 then write_table p t else ((try Sys.remove p with _ -> ()); let oc = open_out p in output_string oc "this is not an mtbl file\n"; close_out oc)
        | XDelete n -> (try Sys.remove (Filename.concat dir (name_of n)) with _ -> ())
        | XAdvance (s, ns) -> c_advance_clock s ns
        | XReload h -> c_fileset_reload !handles.(h)
